@@ -25,6 +25,8 @@ PROP = [  # (subject fragment, property ids, key that used to be reported)
  ("--color-only on concatenated 'diff -u' output", 'C02', 'c02:text (header written before buffered lines)'),
  ('truncate_str must stop adding text', 'C07', 'c07:row-too-wide, c07:truncated-text-not-prefix, c07:reassembly'),
  ('priority among builtin features enabled by flags', 'C13,C10', 'c13:nondeterministic:determinism-flags'),
+ ('changed lines preceding a merge-conflict region', 'C01', 'c01:combined:kind (buffered lines emitted after the conflict region)'),
+ ('mode-change-only file header was printed twice', 'C14,C01', 'c01:real:expected a line, found a file row (git log -p: mode-only section last in a commit)'),
  ("Display for Style omitted the 'hidden'", 'C12', 'c12:show-config-round-trip (hidden)'),
 ]
 log = subprocess.run(['git', '-C', '/repo', 'log', '--format=%H%x09%s', '--reverse'], stdout=subprocess.PIPE).stdout.decode().splitlines()
